@@ -101,7 +101,7 @@ def gen_base(rng, tier, index):
         call = {"ordered": True, "n": 14 + index % 5, "chunk": 2, "form": "list", "salt": 1,
                 "durations": {"mode": "alternate", "t": 0.03, "chunk": 0, "phase": index % 2, "nchunks": 8}}
         case.update(calls=[call], nested_pool=True, workers=max(2, case["workers"]), pool="functor")
-    if index % 16 == 5 and n:
+    if index % 16 == 3 and n:
         call.update(form="callable_iter")        # a data-set object that is iterable AND callable (its __call__ is unrelated)
         call.pop("slow", None)
         call.pop("nones", None)
